@@ -64,6 +64,7 @@ def vWsc : Var := mkVar 12 0
 def vVip : Var := mkVar 13 0
 def vBst : Var := mkVar 14 0
 def vLastm : Var := mkVar 15 0
+def vRloc : Var := mkVar 0 0
 
 def oNb (s : Sched) (b : Nat) : Obj := enc 1 (if s.merged then 0 else b + 1)
 def oNbClose : Obj := enc 1 0
@@ -110,7 +111,7 @@ def progP (s : Sched) : List Ev :=
   ++ (rng s.k).flatMap (fun b =>
         if s.src == 0 then
           [.wr (s.vBlk b), .wr vNfn] ++ s.perChan (fun i => [.wr (s.vSeg b i)]) ++ [.send (s.oNb b)]
-        else if s.src == 1 then [.lock oFl, .wr vEtq, .rd vNfn, .unlock oFl, .send oBufc]
+        else if s.src == 1 then [.lock oFl, .wr vEtq, .rd vNfn, .unlock oFl, .wr vRloc, .rd vRloc, .send oBufc]
         else [.send oBufc])
   ++ [.recvC oAbort] ++ (if s.src == 0 then [.close oNbClose] else [.close oBufc])
 
@@ -207,7 +208,7 @@ def adder (s : Sched) (w : Obj) : Tid :=
 /-- all tokens in use -/
 def allToks (s : Sched) : List Tok :=
   let p := s.par
-  [nfnTok, tk 2 0 0, tk 5 0 0, tk 9 0 0, tk 9 0 1, tk 11 0 0, tk 11 0 1, tk 12 0 0, tk 13 0 0, tk 14 0 0, tk 15 0 0]
+  [nfnTok, tk 2 0 0, tk 5 0 0, tk 9 0 0, tk 9 0 1, tk 11 0 0, tk 11 0 1, tk 12 0 0, tk 13 0 0, tk 14 0 0, tk 15 0 0, tk 0 0 0]
   ++ (rng s.n).flatMap (fun i => procToks i true)
   ++ (rng p.narch).map (fun j => tk 6 j 0) ++ (rng p.ntrs).map (fun m => tk 10 m 0)
   ++ (if p.merged then blockToks p 0 else (rng p.nblk).flatMap (fun b => blockToks p (b + 1)))
